@@ -147,16 +147,18 @@ class CollationManager(context_class_base):
             self._current_lc_collate = locale.getlocale(locale.LC_COLLATE)
 
             try:
-                locale.setlocale(locale.LC_COLLATE, self.lc_collate)
+                try:
+                    locale.setlocale(locale.LC_COLLATE, self.lc_collate)
+                except locale.Error:
+                    if not self.fallback:
+                        raise
+                    locale.setlocale(locale.LC_COLLATE, 'en_US.UTF-8')
             except locale.Error:
-                if not self.fallback:
-                    self._current_lc_collate = None
-                    _locale_collate_lock.release()
+                self._current_lc_collate = None
+                _locale_collate_lock.release()
 
-                    msg = f"Unsupported collation {self.collation!r}"
-                    raise xpath_error('FOCH0002', msg, self.token) from None
-
-                locale.setlocale(locale.LC_COLLATE, 'en_US.UTF-8')
+                msg = f"Unsupported collation {self.collation!r}"
+                raise xpath_error('FOCH0002', msg, self.token) from None
 
         return self
 
